@@ -295,6 +295,20 @@ def correspondence(tier, seed):
                     elif err: result['problems'].append(err)
                     if not pr['summary']: result['problems'].append('no summary from modelrun for ' + name)
                     result['jobs'][name] = pr
+        # scripted scenarios (harness/src/bin/directed.rs): each prints `DIRECTED <name> ok|FAIL <detail>`
+        result['directed'] = {}
+        if not problems:
+            for prof in ('debug', 'release'):
+                try:
+                    r = subprocess.run([os.path.join(TARGET, prof, 'directed')], capture_output=True, text=True, timeout=300)
+                    for l in r.stdout.splitlines():
+                        ws = l.split(' ', 3)
+                        if len(ws) >= 3 and ws[0] == 'DIRECTED':
+                            if ws[2] != 'ok': result['directed'][ws[1]] = '%s build: %s' % (prof, ws[3] if len(ws) > 3 else 'FAIL')
+                            else: result['directed'].setdefault(ws[1], 'ok')
+                    if r.returncode != 0: result['directed']['(process)'] = '%s build: directed exited with %s: %s' % (prof, r.returncode, r.stderr[-300:])
+                except Exception as ex:
+                    result['directed']['(process)'] = '%s build: %r' % (prof, ex)
         result['wall_s'] = time.time() - t0
         # keep only the newest few run directories
         runs = sorted(glob.glob(os.path.join(CACHE, 'runs', '*')), key=os.path.getmtime)
@@ -413,6 +427,16 @@ def main():
 
     if replay:
         problems, _ = build_tools()
+        head = open(replay, errors='replace').read(4000)
+        m_dir = re.search(r'scripted scenario (\w+) of harness/src/bin/directed.rs', head)
+        if m_dir:
+            bad = False
+            for prof in ('debug', 'release'):
+                r = subprocess.run([os.path.join(TARGET, prof, 'directed'), m_dir.group(1)], capture_output=True, text=True, timeout=300)
+                print('%s: %s' % (prof, r.stdout.strip()))
+                bad |= (' ok' not in r.stdout) or r.returncode != 0
+            if bad: print('VIOLATION property=%s replay=%s' % (pid, replay))
+            return 1 if bad else 0
         tmp = os.path.join(CACHE, 'replay-%d' % os.getpid()); os.makedirs(tmp, exist_ok=True)
         bad = False
         for prof in ('debug', 'release'):
@@ -508,6 +532,12 @@ def main():
         violations.append((path, ('correspondence between model and implementation broken at %s (the property\'s own monitors hold on this input)' % sig) if nofail
                            else 'implementation and model/monitor disagree at %s' % sig, nofail))
 
+    for name in cfg.get('directed', []):
+        st = corr.get('directed', {}).get(name)
+        if st is not None and st != 'ok':
+            path = write_replay(pid, 'directed-' + name, ['property=%s' % pid, 'scripted scenario %s of harness/src/bin/directed.rs fails on the real crate:' % name, st,
+                                                        'replay: cargo run --offline --manifest-path harness/Cargo.toml --bin directed -- %s' % name], [])
+            violations.append((path, 'scripted scenario %s fails: %s' % (name, st[:200]), False))
     incomplete = []
     for cr in corr.get('crashes', []):
         # a harness process killed by a signal is a memory-safety failure (C07); one that does not return is a non-terminating
